@@ -7,7 +7,9 @@ EXTENDS Alloc
 MCPkgs3 == {[name |-> "io", path |-> "x/io"], [name |-> "io", path |-> "y/io"], [name |-> "io0", path |-> "z/io0"]}
 MCPkgs4 == MCPkgs3 \cup {[name |-> "io", path |-> "w/io"]}
 \* prefixes where a suffix of one is another ("a" -> "a1"), and one equal to a package name
-MCPrefixes == {"a", "a1", "io"}
-MCAddNames == {"a", "a2", "io"}
-MCAddNames4 == {"a", "a1", "a2", "io0"}
+\* ... plus a Go keyword and a predeclared identifier (a name allocator may be tempted to special-case them)
+MCPrefixes == {"a", "a1", "io", "type"}
+MCPrefixesX == {"a", "a1", "io", "type", "string"}
+MCAddNames == {"a", "a2", "io", "typeParam"}
+MCAddNames4 == {"a", "a1", "a2", "io0", "type1", "typeParam"}
 =============================================================================
